@@ -12,7 +12,7 @@ RULE = ('process grids x the three 4-D layouts (and both 3-D layouts for phi) x 
         'that step; an evaluation is one (grid, layout, field, quantity); non-trivial = more than one rank and a non-constant field')
 ASSUMPTIONS = ['simmpi reductions (combination order supplied by the check)', 'tolerance 1e-12 relative for sums, exact for min/max and time stamps']
 
-NPTS = [6, 8, 7, 6]
+NPTS = [6, 8, 12, 9]          # n//p differs between r, v and z for p = 2 and 3 (block offsets of different dimensions never coincide)
 
 
 def cases(tier, seed):
